@@ -1,16 +1,19 @@
 /-!
 # Configuration resolution as wired by `config.Load` (pkg/config/config.go)
 
-`Load` builds a viper instance, binds every registered flag under its name with the prefix
-`rollkit.` stripped (`bindFlags`), reads `<home>/config/evnode.yaml`, and decodes
+`Load` builds a viper instance, binds every registered flag under the key of the option it names
+(`bindFlags`/`flagConfigKey`: the flag name with the prefix `rollkit.` stripped; the two signer flags
+`rollkit.signer.type`/`.path` under `signer.signer_type`/`signer.signer_path`), reads `<home>/config/evnode.yaml`, and decodes
 `viper.AllSettings()` into a copy of `DefaultConfig` with mapstructure (keys are matched against
 the `mapstructure` tags, case-insensitively; viper lower-cases every key).  For one leaf option
 with mapstructure key path `ms` viper therefore answers, in this order: the flag bound to `ms` if
 it was given on the command line; the value at `ms` in the file; the registered default of the
 flag bound to `ms`; otherwise the key is absent and the field keeps what the copy of
-`DefaultConfig` holds.  Because `cfg := DefaultConfig` copies pointers, fields behind a pointer
-(`Instrumentation`) are decoded into memory shared with `DefaultConfig`: what a `Load` resolved for
-them is what the next `Load` in the same process starts from.
+`DefaultConfig` holds.  `cfg := DefaultConfig` copies pointers: a field behind a pointer that `Load`
+does not re-allocate is decoded into memory shared with `DefaultConfig`, and what a `Load` resolved
+for it is what the next `Load` in the same process starts from.  Which fields are in that position
+is a generated fact (`via`, asked of the compiled `Load`): none since /repo 76d1c39 copies
+`Instrumentation`; the mechanism stays in the model so that a new shared pointer is noticed.
 
 `SaveAsYaml` writes every field under its `yaml` tag path (goccy/go-yaml).
 
@@ -32,7 +35,7 @@ structure Field where
 /-- one registered command-line flag -/
 structure Flag where
   name : String         -- as registered with pflag
-  key : String          -- viper key bound by `bindFlags` (prefix stripped)
+  key : String          -- viper key bound by `bindFlags` = path of the option the flag names
   kind : String
   dflt : String         -- registered default
   reaches : List String -- Go paths of the fields the real `Load` changed when only this flag was given
